@@ -146,6 +146,17 @@ impl TransportState {
         }
     }
 
+    /// Verification hook: place the sending nonce (not reachable through the public API).
+    #[cfg(feature = "verif-hooks")]
+    #[doc(hidden)]
+    pub fn verif_set_sending_nonce(&mut self, nonce: u64) {
+        if self.initiator {
+            self.cipherstates.0.set_nonce(nonce);
+        } else {
+            self.cipherstates.1.set_nonce(nonce);
+        }
+    }
+
     /// Get the forthcoming inbound nonce value.
     ///
     /// # Errors
